@@ -282,7 +282,7 @@ def structured_cases(draw):
 
 
 def checks(tier):
-    n, m = {"quick": (2000, 48), "thorough": (60000, 400)}.get(tier, (10, 2))
+    n, m = {"quick": (2000, 48), "thorough": (20000, 400)}.get(tier, (10, 2))
     return [
         Check("undo_redo_histories", fn_history, strategy=cases, examples=n),
         Check("long_runs", fn_history, strategy=long_cases, examples=m),
